@@ -9,6 +9,7 @@ import (
 	"path/filepath"
 	"regexp"
 	"sort"
+	"strconv"
 	"strings"
 
 	"golang.org/x/tools/go/packages"
@@ -37,15 +38,18 @@ type FuncInfo struct {
 }
 
 type Program struct {
-	Fset      *token.FileSet
-	Pkg       *packages.Package
-	Info      *types.Info
-	Funcs     map[string]*FuncInfo
-	FuncByObj map[*types.Func]*FuncInfo
-	CF        *ContractFile
-	GenFuncs  map[string]*ast.FuncDecl
-	GenSrc    string
-	LoadSecs  float64
+	Fset         *token.FileSet
+	Pkg          *packages.Package
+	Info         *types.Info
+	Funcs        map[string]*FuncInfo
+	FuncByObj    map[*types.Func]*FuncInfo
+	CF           *ContractFile
+	GenFuncs     map[string]*ast.FuncDecl
+	GenSrc       string
+	LoadSecs     float64
+	Renamed      map[string]map[string]string // function -> old local name -> new local name (pure renamings repaired at load)
+	Dropped      map[string]string            // function -> why its contract was dropped for this run (does not resolve)
+	DroppedProps map[string][]string
 }
 
 func loadPkg(overlay map[string][]byte) (*packages.Package, error) {
@@ -180,6 +184,239 @@ func paramDecl(v *types.Var, is *importSet) string {
 // LoadProgram loads /repo (tag verif), parses the contracts file, generates the synthetic clause
 // functions and reloads with them in an overlay so that every clause is type-checked by go/types.
 func LoadProgram() (*Program, error) {
+	prog, err := loadProgramAttempt(nil, nil)
+	if err == nil {
+		return prog, nil
+	}
+	// The contracts do not resolve against the current tree.  Two repairs are tried before giving up, so that an edit
+	// to ONE function neither raises an alarm for a pure renaming nor takes every other function's proof down with it:
+	//  1. renamed locals: if the function's variables (receiver, parameters, results, locals in declaration order) have
+	//     the same number and types as when the ledger was written, names that changed are substituted in its clauses;
+	//  2. what still does not resolve is dropped for this run, contract by contract, and reported as the violation
+	//     `contracts-resolve:<function>` for that function's properties only.
+	first := err
+	keys := contractsInError(err)
+	if len(keys) == 0 {
+		return nil, first
+	}
+	renames := map[string]map[string]string{}
+	if p1, e1 := loadPkg(nil); e1 == nil {
+		funcs, _ := indexFuncs(p1)
+		was := loadLock()[localsKey]
+		for _, k := range keys {
+			if fi := funcs[k]; fi != nil {
+				if m := renameMap(was, k, localList(p1.TypesInfo, fi)); len(m) > 0 {
+					renames[k] = m
+				}
+			}
+		}
+	}
+	if len(renames) > 0 {
+		if prog, err = loadProgramAttempt(renames, nil); err == nil {
+			prog.Renamed = renames
+			return prog, nil
+		}
+		keys = contractsInError(err)
+	}
+	dropped := map[string]string{}
+	for round := 0; round < 4 && len(keys) > 0; round++ {
+		for _, k := range keys {
+			if _, dup := dropped[k]; !dup {
+				dropped[k] = err.Error()
+			}
+		}
+		prog, err = loadProgramAttempt(renames, dropped)
+		if err == nil {
+			prog.Renamed = renames
+			prog.Dropped = dropped
+			prog.DroppedProps = map[string][]string{}
+			if src, e := os.ReadFile(filepath.Join(RepoDir, ContractsFileName)); e == nil {
+				cf0 := ParseContracts(string(src))
+				for k := range dropped {
+					if c := cf0.Contracts[k]; c != nil {
+						prog.DroppedProps[k] = c.Props
+					}
+				}
+			}
+			return prog, nil
+		}
+		keys = contractsInError(err)
+	}
+	return nil, first
+}
+
+const localsKey = "~locals"
+
+// localList: the variables of a function in declaration order as "name:type" (receiver, parameters, results, locals).
+func localList(info *types.Info, fi *FuncInfo) []string {
+	var out []string
+	ast.Inspect(fi.Decl, func(n ast.Node) bool {
+		if _, isLit := n.(*ast.FuncLit); isLit {
+			return true
+		}
+		id, ok := n.(*ast.Ident)
+		if !ok {
+			return true
+		}
+		if v, ok := info.Defs[id].(*types.Var); ok && !v.IsField() && v.Name() != "_" {
+			out = append(out, v.Name()+":"+types.TypeString(v.Type(), func(p *types.Package) string { return p.Name() }))
+		}
+		return true
+	})
+	return out
+}
+
+// renameMap aligns the ledger's variable list of function key with the current one; it answers only when both have the
+// same length and the same types position by position (a pure renaming).
+func renameMap(was []string, key string, now []string) map[string]string {
+	var old []string
+	for _, l := range was {
+		if f := strings.SplitN(l, "\t", 2); len(f) == 2 && f[0] == key {
+			old = strings.Split(f[1], ",")
+		}
+	}
+	if len(old) == 0 || len(now) == 0 {
+		return nil
+	}
+	typ := func(s string) string {
+		if k := strings.Index(s, ":"); k >= 0 {
+			return s[k+1:]
+		}
+		return ""
+	}
+	nam := func(s string) string {
+		if k := strings.Index(s, ":"); k >= 0 {
+			return s[:k]
+		}
+		return s
+	}
+	// longest common subsequence on exact "name:type" entries anchors the two lists; between two anchors the unmatched
+	// old and new variables are paired in order when their types agree (a renaming); variables that were added or
+	// removed stay unpaired
+	n, m := len(old), len(now)
+	lcs := make([][]int, n+1)
+	for i := range lcs {
+		lcs[i] = make([]int, m+1)
+	}
+	for i := n - 1; i >= 0; i-- {
+		for j := m - 1; j >= 0; j-- {
+			if old[i] == now[j] {
+				lcs[i][j] = lcs[i+1][j+1] + 1
+			} else if lcs[i+1][j] >= lcs[i][j+1] {
+				lcs[i][j] = lcs[i+1][j]
+			} else {
+				lcs[i][j] = lcs[i][j+1]
+			}
+		}
+	}
+	out := map[string]string{}
+	var gapOld, gapNew []string
+	flush := func() {
+		j := 0
+		for _, o := range gapOld {
+			for j < len(gapNew) && typ(gapNew[j]) != typ(o) {
+				j++
+			}
+			if j < len(gapNew) {
+				if prev, dup := out[nam(o)]; !dup || prev == nam(gapNew[j]) {
+					out[nam(o)] = nam(gapNew[j])
+				}
+				j++
+			}
+		}
+		gapOld, gapNew = nil, nil
+	}
+	i, j := 0, 0
+	for i < n && j < m {
+		switch {
+		case old[i] == now[j]:
+			flush()
+			i++
+			j++
+		case lcs[i+1][j] >= lcs[i][j+1]:
+			gapOld = append(gapOld, old[i])
+			i++
+		default:
+			gapNew = append(gapNew, now[j])
+			j++
+		}
+	}
+	gapOld = append(gapOld, old[i:]...)
+	gapNew = append(gapNew, now[j:]...)
+	flush()
+	// a name that still exists unchanged elsewhere must not be renamed away from it
+	still := map[string]bool{}
+	for _, s := range now {
+		still[nam(s)] = true
+	}
+	for o := range out {
+		if still[o] {
+			delete(out, o)
+		}
+	}
+	return out
+}
+
+var errLineRe = regexp.MustCompile(`(?:verif_contracts\.go|contracts):(\d+)`)
+
+// contractsInError: the contracts (function keys) the lines named in a resolution error belong to.
+func contractsInError(err error) []string {
+	src, e := os.ReadFile(filepath.Join(RepoDir, ContractsFileName))
+	if e != nil {
+		return nil
+	}
+	cf := ParseContracts(string(src))
+	// a line belongs to the last `func` block that starts at or before it
+	type start struct {
+		line int
+		key  string
+	}
+	var starts []start
+	for k, c := range cf.Contracts {
+		starts = append(starts, start{c.Line, k})
+	}
+	sort.Slice(starts, func(i, j int) bool { return starts[i].line < starts[j].line })
+	set := map[string]bool{}
+	for _, m := range errLineRe.FindAllStringSubmatch(err.Error(), -1) {
+		ln, _ := strconv.Atoi(m[1])
+		key := ""
+		for _, st := range starts {
+			if st.line <= ln {
+				key = st.key
+			}
+		}
+		if key != "" {
+			set[key] = true
+		}
+	}
+	var out []string
+	for k := range set {
+		out = append(out, k)
+	}
+	sort.Strings(out)
+	return out
+}
+
+// renameIdents substitutes identifiers in a clause text (selectors `x.old` are left alone).
+func renameIdents(text string, m map[string]string) string {
+	if len(m) == 0 {
+		return text
+	}
+	toks, err := scanToks(text)
+	if err != nil {
+		return text
+	}
+	for i := range toks {
+		if toks[i].t == token.IDENT {
+			if nn, ok := m[toks[i].lit]; ok && (i == 0 || toks[i-1].t != token.PERIOD) {
+				toks[i].lit = nn
+			}
+		}
+	}
+	return joinToks(toks)
+}
+
+func loadProgramAttempt(renames map[string]map[string]string, dropped map[string]string) (*Program, error) {
 	src, err := os.ReadFile(filepath.Join(RepoDir, ContractsFileName))
 	if err != nil {
 		return nil, fmt.Errorf("contracts file: %v", err)
@@ -187,6 +424,23 @@ func LoadProgram() (*Program, error) {
 	cf := ParseContracts(string(src))
 	if len(cf.Errors) > 0 {
 		return nil, fmt.Errorf("contract syntax errors:\n%s", strings.Join(cf.Errors, "\n"))
+	}
+	for k := range dropped {
+		if _, ok := cf.Contracts[k]; ok {
+			delete(cf.Contracts, k)
+			var order []string
+			for _, o := range cf.Order {
+				if o != k {
+					order = append(order, o)
+				}
+			}
+			cf.Order = order
+		}
+	}
+	for k, m := range renames {
+		if c := cf.Contracts[k]; c != nil {
+			c.renameIdents(m)
+		}
 	}
 	p1, err := loadPkg(nil)
 	if err != nil {
@@ -413,7 +667,9 @@ func LoadProgram() (*Program, error) {
 			case "precall":
 				call := findNthCall(info, fi.Decl, h.Callee, h.N)
 				if call == nil {
-					genErrs = append(genErrs, fmt.Sprintf("contracts:%d: %s has no call %d of %s", h.Stmts.Line, key, h.N, h.Callee))
+					if !h.Optional {
+						genErrs = append(genErrs, fmt.Sprintf("contracts:%d: %s has no call %d of %s", h.Stmts.Line, key, h.N, h.Callee))
+					}
 					continue
 				}
 				ps := localParams(call.Pos())
@@ -433,7 +689,9 @@ func LoadProgram() (*Program, error) {
 			case "call":
 				call := findNthCall(info, fi.Decl, h.Callee, h.N)
 				if call == nil {
-					genErrs = append(genErrs, fmt.Sprintf("contracts:%d: %s has no call %d of %s", h.Stmts.Line, key, h.N, h.Callee))
+					if !h.Optional {
+						genErrs = append(genErrs, fmt.Sprintf("contracts:%d: %s has no call %d of %s", h.Stmts.Line, key, h.N, h.Callee))
+					}
 					continue
 				}
 				ps := localParams(call.Pos())
@@ -598,7 +856,29 @@ func calleeName(ce *ast.CallExpr) string {
 }
 
 // findClosureLit: the function literal assigned (once) to the local named name inside fd.
+var litNameRe = regexp.MustCompile(`^lit(\d+)$`)
+
+// nthFuncLit: the n-th function literal of fd in source order (1-based); contracts name it `closure litN`.
+func nthFuncLit(fd *ast.FuncDecl, n int) *ast.FuncLit {
+	var found *ast.FuncLit
+	k := 0
+	ast.Inspect(fd.Body, func(nd ast.Node) bool {
+		if lit, ok := nd.(*ast.FuncLit); ok {
+			k++
+			if k == n && found == nil {
+				found = lit
+			}
+		}
+		return true
+	})
+	return found
+}
+
 func findClosureLit(info *types.Info, fd *ast.FuncDecl, name string) *ast.FuncLit {
+	if m := litNameRe.FindStringSubmatch(name); m != nil {
+		n, _ := strconv.Atoi(m[1])
+		return nthFuncLit(fd, n)
+	}
 	var found *ast.FuncLit
 	ast.Inspect(fd.Body, func(n ast.Node) bool {
 		as, ok := n.(*ast.AssignStmt)
